@@ -182,9 +182,15 @@ def oracle(c, r):
         return {"violates": o["legal"] != exp, "expected": exp}
     if k == "sstable": return {"violates": o["ss"] != O.is_reduced(m, D, q), "expected": O.is_reduced(m, D, q)}
     if k == "order":
-        if c["q2"] != q or (c.get("other") and n >= 2): return {"violates": o["cmp"] != ["err", False, "err", "err", "err"]}
-        vs = [v for v in range(n) if v != q]; E = c["E"]; le = all(D[v] <= E[v] for v in vs); ge = all(D[v] >= E[v] for v in vs); eq = all(D[v] == E[v] for v in vs)
-        return {"violates": o["cmp"] != [le, eq, le and not eq, ge, ge and not eq]}
+        if c["q2"] != q or (c.get("other") and n >= 2): return {"violates": o["cmp"] != ["err", False, "err", "err", "err"] or o.get("cmp2", ["err", False, "err", "err", "err"]) != ["err", False, "err", "err", "err"]}
+        vs = [v for v in range(n) if v != q]; E = c["E"]
+        def rel(X):
+            le = all(X[v] <= E[v] for v in vs); ge = all(X[v] >= E[v] for v in vs); eq = all(X[v] == E[v] for v in vs); return [le, eq, le and not eq, ge, ge and not eq]
+        bad = o["cmp"] != rel(D)
+        if "cmp2" in o and c.get("mv"):
+            D2 = list(D); D2[c["mv"][0]] -= c["mv"][2]; D2[c["mv"][1]] += c["mv"][2]
+            bad = bad or o["cmp2"] != rel(D2) or o["sum2"] != sum(D2[v] for v in vs)
+        return {"violates": bad}
     return {"violates": o["count"] != o["det"], "count": o["count"], "det": o["det"]}
 def nontrivial(cases): return len({str({k: v for k, v in c.items() if k not in ("s", "_id")}) for c in cases if c["kind"] in ("legal", "sstable") and (c["kind"] == "sstable" or c["S"])})
 def distribution(cases):
